@@ -23,7 +23,7 @@ import (
 
 func TestMain(m *testing.M) { kit.Main(m) }
 
-const rule = "1-4 configuration sources of kinds raw / file (temp dir) / command-line arguments (explicit ArgsLoader or the default one fed through os.Args), each a key tree over a shape-consistent schema of leaf paths (keys [a-c]{1,2}, depth<=3; leaves int / plain string / int list) with overlapping and exclusive keys, attached by an option script mixing SetConfigLoader, AddConfigLoader and SetConfig in drawn order; oracle: reference deep merge in the contract sequence (files first, the others in the order added; a leaf supplied by two files may take either value); App.Get(path) for every leaf and a prefix-bound map field must equal it; non-trivial = >=2 effective sources with >=1 overlapping and >=1 exclusive key; distinct by documents + script"
+const rule = "1-4 configuration sources of kinds raw / file (temp dir) / command-line arguments (explicit ArgsLoader or the default one fed through os.Args), each a key tree over a shape-consistent schema of leaf paths (keys [a-c]{1,2}, depth<=3; leaves int / plain string / int list) with overlapping and exclusive keys, attached by an option script mixing SetConfigLoader, AddConfigLoader and SetConfig in drawn order; oracle: reference deep merge in the contract sequence (files first, the others in the order added; a leaf supplied by two files may take either value); App.Get(path) for every leaf and a prefix-bound map field must equal it; non-trivial = >=2 effective sources with >=1 overlapping and >=1 exclusive key; distinct by documents + script; since rounds 7/8 also up to 28 sources, a second App started from the same option values, and a document the binder cannot read (reported, or nothing else dropped)"
 
 type source struct {
 	Kind   string // raw file args osargs
